@@ -189,7 +189,7 @@ Proof.
   rewrite Ms in E, N1. cbn [filter length] in E.
   assert (Nn : nfs = []).
   { destruct nfs as [|m t]; [reflexivity|]. destruct (N1 m (or_introl eq_refl)) as (sn & ? & ? & ? & ? & _ & [] & _). }
-  subst nfs. cbn [isnil app] in E. rewrite E. f_equal. f_equal. lia.
+  subst nfs. cbn [isnil app] in E. rewrite E. change (Z.of_nat 0) with 0. rewrite !Z.add_0_r. reflexivity.
 Qed.
 
 Theorem round_settles depth s :
